@@ -50,10 +50,10 @@ CONFIG = dict(
              'graph re-used. '
              'Non-trivial = at least 2 nodes and 1 edge; distinct = distinct name table + operation list.',
         exhaustive_note='digraphs on <=3 nodes (with self loops) x 2 insertion orders enumerated completely, once under fixed-width names and (2 and 3 nodes) once more under drawn name tables; 4 nodes without self loops (quick) / with (thorough); copy-then-mutate: every digraph on <=2 nodes (with self loops) and 3 nodes (quick without, thorough with self loops) x side x every single mutation',
-        assumptions=['node names are arbitrary distinct non-empty byte strings; the model works on integers whose order stands for the plain byte order of the '
+        assumptions=['node names are arbitrary distinct byte strings (the empty one included); the model works on integers whose order stands for the plain byte order of the '
                      'names (sort.Strings is modelled as a sort of integers, the driver maps every name to its rank in byte order before the model runs)',
-                     'the empty string is not used as a node name (it is FindCycle\'s sentinel; hypothesis is_node s nobody = false of the FindCycle '
-                     'theorems, part of valid_ops, proved to hold in every reachable state)',
+                     'FindCycle\'s no-parent mark (the root flag of the Go code since fix F26) is the integer -1 in the model, which is the rank of no name: hypothesis '
+                     'is_node s nobody = false of the FindCycle theorems, part of valid_ops, proved to hold in every reachable state',
                      'FindCycle/FindParents iterate Go maps: the model takes the iteration order as an argument; the theorems hold for every order, '
                      'and only order-independent facts are compared (validity of the returned cycle, emptiness, parent set)',
                      'independence of Toposort from Go map iteration order is not proved about the Go code (the model has no map order); it is what '
